@@ -59,6 +59,12 @@ func c05r1(r *R) {
 		case pac:
 			want, cls = "closure:(*forwarder.HTTPProxy).pacProxy$bound", "pac"
 		}
+		// a lower-precedence source may be chosen only after the higher ones were found absent
+		noExt := p.holds("!($0.config.UpstreamProxyFunc != nil)")
+		noStatic := p.holds("!($0.config.UpstreamProxy != nil)")
+		if (cls == "static" && !noExt) || (cls == "pac" && !(noExt && noStatic)) || (cls == "none" && !(noExt && noStatic && p.holds("!($0.pac != nil)"))) {
+			bad["source "+cls+" is selected without the higher-precedence sources (external function, static URL, PAC - in that order) having been found absent"] = true
+		}
 		if dd {
 			want = "(*forwarder.HTTPProxy).directDomains($0, " + want + ")"
 			cls += "+dd"
